@@ -1022,6 +1022,11 @@ def gen_mixing_arrivals(rng, tps, nticks, per_poll):
 def gen_rest(rng, force=None):
     tps = rng.choice([1, 2, 2, 4, 10, 10, 100, 1000])
     poll = rng.choice([0.01, 0.1, 0.5, 0.5, 1.0, 1.0, 2.5])
+    if rng.random() < 0.25:
+        # tick rates that do not divide 1000 (the simulated time is not a whole number of milliseconds) with poll
+        # intervals of a few ticks
+        tps = rng.choice([3, 30, 2000, 10000, 10000])
+        poll = rng.choice([3, 5, 10, 10]) / tps if tps >= 2000 else rng.choice([0.5, 1.0, 1 / 3, 0.1])
     if force:
         tps, poll = force
     per_poll = max(1, poll * tps)
